@@ -43,6 +43,9 @@ GEN_PARAMS_STAGES = [
     ("modifications_init", "polyply.src.gen_itp", "ApplyModifications.__init__"),
     ("modifications", "polyply.src.gen_itp", "ApplyModifications.run_molecule"),
     ("missing_edges", "polyply.src.gen_itp", "find_missing_edges"),
+    # stages one level deeper: they fail while the result of a lazily evaluated stage is consumed
+    ("missing_edges_inner", "polyply.src.graph_utils", "find_connecting_edges"),
+    ("link_matching_inner", "polyply.src.apply_links", "match_link_and_residue_atoms"),
     ("citation", "polyply.src.gen_itp", "citation_formatter"),
     ("write_itp", "vermouth.gmx.itp", "write_molecule_itp"),
     ("flush", "polyply.src.gen_itp", "DeferredFileWriter.write"),
@@ -60,6 +63,9 @@ GEN_COORDS_STAGES = [
     ("build_system", "polyply.src.gen_coords", "BuildSystem.run_system"),
     ("split_ligands", "polyply.src.gen_coords", "AnnotateLigands.split_ligands"),
     ("backmap", "polyply.src.gen_coords", "Backmap.run_system"),
+    ("backmap_inner", "polyply.src.backmap", "orient_template"),
+    ("placement_inner", "polyply.src.nonbond_engine", "NonBondEngine.update_positions_in_molecules"),
+    ("templates_inner", "polyply.src.generate_templates", "compute_volume"),
     ("convert", "polyply.src.gen_coords", "Topology.convert_to_vermouth_system"),
     ("write_gro", "vermouth.gmx.gro", "write_gro"),
     ("flush", "polyply.src.gen_coords", "DeferredFileWriter.write"),
@@ -72,6 +78,7 @@ GEN_SEQ_STAGES = [
     ("connects", "polyply.src.gen_seq", "_add_edges"),
     ("termini", "polyply.src.gen_seq", "_apply_termini_modifications"),
     ("labels", "polyply.src.gen_seq", "_tag_nodes"),
+    ("labels_inner", "polyply.src.gen_seq", "_random_replace_nodes_attribute"),
     ("node_link", "polyply.src.gen_seq", "json_graph.node_link_data"),
 ]
 STAGES = {"gen_params": GEN_PARAMS_STAGES, "gen_coords": GEN_COORDS_STAGES, "gen_seq": GEN_SEQ_STAGES}
@@ -86,7 +93,9 @@ def enumerate_cases(tier, seed):
             for prior in PRIOR:
                 cases.append({"program": program, "input": inp, "fault": None, "prior": prior, "rng": seed})
                 for (stage, _m, _a) in stages:
-                    for pos in ("before", "after"):
+                    for pos in ("before", "after", "lazy"):
+                        if pos == "lazy" and stage not in ("missing_edges",):
+                            continue
                         use = excs if (tier == "thorough" or pos == "before") else excs[:1]
                         if tier == "quick" and pos == "before":
                             use = excs[:2]
@@ -223,6 +232,11 @@ def install_fault(program, fault, state):
         state["reached"] = True
         if pos == "before":
             raise exc(f"injected fault before {stage}")
+        if pos == "lazy":
+            def failing_iterator():
+                raise exc(f"injected fault while the result of {stage} is consumed")
+                yield None
+            return failing_iterator()
         out = func(*a, **kw)
         raise exc(f"injected fault after {stage}")
 
